@@ -6,6 +6,7 @@ import AnySyncModel.Driver.Deletion
 import AnySyncModel.Driver.Tree
 import AnySyncModel.Driver.Sync
 import AnySyncModel.Driver.PubSub
+import AnySyncModel.Driver.Keys
 /-!
 `modeld <area>`: reads one operation per line on stdin, prints exactly one line per operation.
 Stateless areas expose `step : String → String`; stateful areas expose
@@ -40,4 +41,5 @@ def main (args : List String) : IO UInt32 := do
   | ["tree"] => loopPure stdin stdout Driver.Tree.step; return 0
   | ["sync"] => loopState stdin stdout Driver.Sync.step none; return 0
   | ["pubsub"] => loopState stdin stdout Driver.PubSub.step Driver.PubSub.init; return 0
+  | ["keys"] => loopState stdin stdout Driver.Keys.step Driver.Keys.init; return 0
   | _ => IO.eprintln s!"modeld: unknown area {args}"; return 2
